@@ -606,6 +606,20 @@ func replayScenario(name string, beh []map[string]any, wtCand bool) Scenario {
 		}
 		sid := s.Sid
 		var cand *WSClient
+		// data requests as goroutines of their own (feature "dreq" of the model): the handler is held after it has taken the
+		// slot (polling.data.tested) and after every packet it has processed (the harness's own listener of the transport's
+		// "packet" event runs after the socket's)
+		var post *Req
+		for _, a := range beh {
+			if a["a"] == "post" {
+				g.Park("polling.data.tested", true)
+				g.Park("T.packet", true)
+				if so := w.Sock(sid); so != nil {
+					so.Transport().On("packet", func(...any) { g.at("T.packet", sid) })
+				}
+				break
+			}
+		}
 		// the heartbeat instants of the session (revision 4): the model's "ping" / "pingtimeout" steps are the timers firing
 		pingDue := time.Now().Add(cfg.PI)
 		var pingAt time.Time
@@ -657,6 +671,33 @@ func replayScenario(name string, beh []map[string]any, wtCand bool) Scenario {
 				g.Release("socket.onclose.tested")
 				sc.settle()
 				g.Release("L.close")
+			case "post":
+				var pk []Pkt
+				ks, _ := a["k"].(string)
+				for _, k := range strings.Split(ks, "") {
+					switch k {
+					case "m":
+						pk = append(pk, w.ClientMsg(5, false, 1))
+					case "c":
+						w.Cause(sid, "peer")
+						pk = append(pk, Pkt{Type: "close"})
+					case "o":
+						pk = append(pk, Pkt{Type: "pong"})
+					}
+				}
+				post = w.Post(s, pk, ReqOpt{})
+			case "post.overlap":
+				w.Cause(sid, "error")
+				w.Post(s, []Pkt{{Type: "pong"}}, ReqOpt{}) // refused with 400: never the session's data request
+			case "post.step":
+				if !g.Release("polling.data.tested") {
+					g.Release("T.packet")
+				}
+			case "post.abort":
+				if post != nil {
+					w.Cause(sid, "error")
+					w.Abort(post)
+				}
 			case "climsg":
 				if c.Kind == "polling" {
 					w.Post(s, []Pkt{w.ClientMsg(5, false, 1)}, ReqOpt{})
@@ -717,7 +758,7 @@ func replayScenario(name string, beh []map[string]any, wtCand bool) Scenario {
 			}
 			sc.settle()
 			if exp, ok := a["exp"].(map[string]any); ok {
-				w.logModelExpect(sid, c.poll, a["a"], exp)
+				w.logModelExpect(sid, c.poll, post, a["a"], exp)
 			}
 		}
 		g.StopParking()
